@@ -231,7 +231,8 @@ func newFinishedHash(version uint16, cipherSuite *cipherSuite) finishedHash {
 		// the MD5 slots are written for every version below TLS 1.2 (GMSSL is 0x0101): they must not be nil
 		return finishedHash{sm3.New(), sm3.New(), new(nilMD5Hash), new(nilMD5Hash), buffer, version, prf}
 	} else {
-		prf, hash := prfAndHashForVersion(version, cipherSuite)
+		var hash crypto.Hash
+		prf, hash = prfAndHashForVersion(version, cipherSuite)
 		if hash != 0 {
 			return finishedHash{hash.New(), hash.New(), nil, nil, buffer, version, prf}
 		}
